@@ -63,7 +63,9 @@ TNames == /\ IsEvent("call") /\ Ev.name = "getnames" /\ GetNames
 TList == /\ IsEvent("call") /\ Ev.name = "list" /\ List
          /\ Ev.ok /\ Ev.names = [i \in 1..N |-> i]
          /\ \A i \in Idx : /\ Ev.sizes[i] = a.members[i].size                  \* reported size = length of the extracted bytes
-                           /\ (IsData(i) => Ev.crcs[i] = a.members[i].crc)     \* reported CRC = CRC of those bytes
+                           \* reported CRC = CRC of those bytes where the archive stores one (a CRC of 0 included), None (<<70000, 70000>>) where not
+                           /\ (IsData(i) => Ev.crcs[i] = (IF "hascrc" \in DOMAIN a.members[i] /\ ~a.members[i].hascrc
+                                                          THEN <<70000, 70000>> ELSE a.members[i].crc))
                            /\ Ev.dirs[i] = (a.members[i].kind = "dir")         \* directory flag = what extraction creates
 TGetInfo == IsEvent("call") /\ Ev.name = "getinfo" /\ Pure("getinfo") /\ Ev.ok /\ Ev.flag
 TNeedsPw == /\ IsEvent("call") /\ Ev.name = "needs_password" /\ NeedsPassword
